@@ -16,7 +16,7 @@ from vmon.libutil import load_definition, monitored
 
 LEVEL = "exploration"
 SHARDS = {"quick": 16, "thorough": 16}
-MUST = ["lockstep.rounds", "yielded.clean", "yielded.flagged", "withheld.bad", "model.exact", "model.under", "model.over", "model.negative",
+MUST = ["lockstep.rounds", "stream.clean_clean_bad_clean", "yielded.clean", "yielded.flagged", "withheld.bad", "model.exact", "model.under", "model.over", "model.negative",
         "reads.logged", "reads.negative_width", "reads.past_end", "repeated.streams", "reparse.same_raw_object"]
 RULE = ("case = (generated document, packet whose length is what the definition consumes -9..+9 bytes, or whose "
         "length-controlling fields make a computed size 0 or negative, parse_bad_pkts in {True, False}); each packet is "
@@ -102,6 +102,9 @@ def offer(ctx, defn, info, raw, out, parse_bad, has_dyn, wit_extra):
             else:
                 ctx.count("withheld.bad")
                 ctx.sig(out.consumption, "withheld", anomaly, parse_bad, dyn)
+                # "flagged by the warning (and withheld when bad packets are excluded)": withholding does not replace the warning
+                if not [w for w in s.warnings if harness.is_length_warning(w)]:
+                    ctx.violation(f"withheld/without-warning/{out.consumption}", "a length-mismatched packet was withheld (parse_bad_pkts=False) without the mismatch warning", wit)
         return
     pkt = s.value
     lw = [w for w in s.warnings if harness.is_length_warning(w)]
@@ -186,8 +189,23 @@ def lockstep(ctx, defn, clean, bad, wit_extra):
             break
         alone.append(bool([w for w in s.warnings if harness.is_length_warning(w)]))
     g.close()
+    ctx.count("stream.clean_clean_bad_clean")
     if alone != [False, False, True, False]:
-        return        # the single-stream behaviour is judged by offer(); nothing to compare the lock step with
+        # one stream: clean, clean, mismatched, clean -> exactly the third delivery carries the warning
+        ctx.violation("stream/warning-pattern/" + "".join("W" if f else "-" for f in alone),
+                      f"a stream clean, clean, mismatched, clean was delivered with warning flags {alone}", dict(wit_extra, flags=alone, bad=bad, clean=clean))
+        return
+    g = defn.packet_generator(sb, parse_bad_pkts=False)
+    kept = []
+    for _ in range(5):
+        s = monitored(next, g)
+        if s.exc is not None:
+            break
+        kept.append(bytes(s.value.raw_data))
+    g.close()
+    if kept != [clean, clean, clean]:
+        ctx.violation("stream/withheld-pattern", f"the same stream with parse_bad_pkts=False yielded {len(kept)} packets, expected the three clean ones",
+                      dict(wit_extra, yielded=len(kept)))
     ga, gb = defn.packet_generator(sa), defn.packet_generator(sb)
     rounds = []
     sentinel = object()
